@@ -464,8 +464,12 @@ impl Recorder {
             "violations": violations.len(),
             "violation_list": violations.iter().map(|v| json!({"check": v.check, "sig": v.sig, "msg": v.msg, "replay": v.replay})).collect::<Vec<_>>(),
         });
-        let path = format!("{VERIF_DIR}/evidence/{}.json", self.property);
-        let _ = std::fs::create_dir_all(format!("{VERIF_DIR}/evidence"));
+        // VERIF_EVIDENCE_DIR is only used by tools/try_seed.sh so that runs
+        // against a seeded (deliberately broken) tree never overwrite the
+        // real evidence files.
+        let evdir = std::env::var("VERIF_EVIDENCE_DIR").unwrap_or_else(|_| format!("{VERIF_DIR}/evidence"));
+        let path = format!("{evdir}/{}.json", self.property);
+        let _ = std::fs::create_dir_all(&evdir);
         let tmp = format!("{path}.tmp.{}", std::process::id());
         std::fs::write(&tmp, serde_json::to_string_pretty(&ev).unwrap() + "\n")
             .expect("write evidence");
